@@ -28,6 +28,19 @@ class StoreModel:
             if k[0] == "param" and mentions(r, lambda s: strip_site(s) == strip_site(lookup)):
                 self.presence_fns[f.name] = k[1]
 
+        # readable predicates: bool functions that are `is_some()` of a liveness-filtered lookup function of the store
+        self.readable_fns = {}
+        lookup_fns = {f.name for f, bb, t in self.lookup_sites if f.rec.get("ret", "").startswith("std::option::Option<")}
+        for name, f in F.fns.items():
+            if f.rec.get("ret") != "bool" or name in self.presence_fns:
+                continue
+            r = f.origin_local(0)
+            if r[0] == "call" and r[1].endswith("Option::<T>::is_some") and r[2] and r[2][0][0] == "call" and r[2][0][1] in lookup_fns:
+                inner = r[2][0]
+                ks = [i for i, a in enumerate(inner[2]) if a[0] == "param" and a[1] >= 2]
+                if ks:
+                    self.readable_fns[name] = inner[2][ks[0]][1]
+
     def callers(self, fname):
         out = []
         for name, f in self.F.fns.items():
@@ -36,16 +49,20 @@ class StoreModel:
                     out.append((f, bb, t))
         return out
 
-    def absence_edges(self, fn, key):
-        """edges of fn after which `key` was observed absent from the store by a presence predicate"""
+    def absence_edges(self, fn, key, readable_too=False):
+        """edges of fn after which `key` was observed absent from the store by a presence predicate
+        (physically absent; with readable_too also 'not readable' predicates count)"""
         out = []
+        preds = dict(self.presence_fns)
+        if readable_too:
+            preds.update(self.readable_fns)
         for b, expr, tt, ft in bool_branches(fn):
             neg = False
             e = expr
             if e[0] == "unop" and e[1] == "Not":
                 e, neg = e[2], True
-            if e[0] == "call" and e[1] in self.presence_fns:
-                kp = self.presence_fns[e[1]]
+            if e[0] == "call" and e[1] in preds:
+                kp = preds[e[1]]
                 karg = e[2][kp - 1]
                 if same_value(karg, key):
                     out.append((b, tt if neg else ft))
